@@ -135,6 +135,28 @@ def _iff_empty(live: T, lst: T) -> bool:
         tm.fold(live, world(7)) is False
 
 
+def _unreachable_when_empty(live: T, lst: T) -> bool:
+    """the condition is false for an empty list (a `return lst` under
+    `if lst:`)"""
+    def env(a):
+        if a.op in ("and", "or", "not"):
+            return None
+        if a is lst:
+            return False
+        if a.op == "cmp":
+            ln = tm.call(tm.glob("builtins.len"), (lst,), ())
+            vals = [0 if t is ln else (tm.const_val(t) if tm.is_const(t) and
+                                       type(tm.const_val(t)) is int else None)
+                    for t in (a.args[1], a.args[2])]
+            if None not in vals:
+                x, y = vals
+                return {"Lt": x < y, "LtE": x <= y, "Gt": x > y,
+                        "GtE": x >= y, "Eq": x == y,
+                        "NotEq": x != y}.get(a.args[0])
+        return None
+    return tm.fold(live, env) is False
+
+
 def check(ctx):
     prog = ctx.prog
     ctx.analysed_fn(FI, FP, FA, IDP)
@@ -250,6 +272,25 @@ def _strip_prefix(cond: T, prefix: T, lid: int) -> T:
     return tm.mk_and(*[x for x in _conj(cond) if x not in pl])
 
 
+def _chain(t: T, loop, lid: int, want: T = None):
+    """_ite_chain of a loop-carried update, with the `if <no accept>:
+    continue` spelling turned round: [(skip, unchanged), (None, new)] reads
+    [(prefix and not skip-test, new), (None, unchanged)]"""
+    ch = _ite_chain(t)
+    if len(ch) == 2 and ch[0][0] is not None and (
+            (ch[0][1].op == "loopvar" and ch[1][1].op != "loopvar")
+            or want is not None and ch[0][0] is not want):
+        pl = set(_conj(loop.live)) | {T("iter", lid)}
+        pre = [x for x in _conj(ch[0][0]) if x in pl]
+        inner = [x for x in _conj(ch[0][0]) if x not in pl]
+        if inner:
+            neg = tm.mk_or(*[tm.mk_not(x) for x in inner])
+            flipped = [(tm.mk_and(*pre, neg), ch[1][1]), (None, ch[0][1])]
+            if want is None or flipped[0][0] is want:
+                return flipped
+    return ch
+
+
 def _new_defaults(ctx, f, known):
     """parameters added to a filter later are analysed at their defaults"""
     from ..lib import extra_defaults
@@ -273,7 +314,7 @@ def _by_path(ctx, prog):
     if ok:
         name, lid, init, upd = ids.args
         loop = [e for e in r.of_kind("loop") if e.data["lid"] == lid][0]
-        ch = _ite_chain(upd)
+        ch = _chain(upd, loop, lid)
         acc = [(c, v) for c, v in ch if c is not None]
         def plain_index(x: T) -> T:
             # enumerate(xs, 0): index + 0
@@ -362,7 +403,7 @@ def _by_path(ctx, prog):
                 return
             if len(cp) == 1:
                 accv = cp[0]
-                chain = _ite_chain(accv.args[3])
+                chain = _chain(accv.args[3], loop, lid, acc[0][0])
                 resets = [(c, v) for c, v in chain if c is not None]
                 ok4 = tm.is_const(accv.args[2]) and \
                     accv.args[2].args[1] == 0 and len(resets) == 1 and \
@@ -580,7 +621,13 @@ def _by_angle(ctx, prog):
                     return {"Lt": x < y, "LtE": x <= y, "Gt": x > y,
                             "GtE": x >= y, "Eq": x == y,
                             "NotEq": x != y}.get(a.args[0])
-                return tm.fold(raises[0].live, env)
+                # (one raise with both bounds, or one raise per bound)
+                vals = [tm.fold(e_.live, env) for e_ in raises]
+                if any(x is True for x in vals):
+                    return True
+                if all(x is False for x in vals):
+                    return False
+                return None
             inside = [0.0, top / 2, top]
             outside = [-1e-9, -1.0, top * (1 + 1e-12) + 1e-12, top + 1.0]
             okb = all(refused(v) is False for v in inside) and \
@@ -598,7 +645,7 @@ def _by_angle(ctx, prog):
                     f"(unknown idiom): {fmt(ret)}")
         name, lid, init, upd = ret.args
         loop = [e for e in r.of_kind("loop") if e.data["lid"] == lid][0]
-        ch = _ite_chain(upd)
+        ch = _chain(upd, loop, lid)
         acc = [(c, v) for c, v in ch if c is not None]
         ok = init is T("list") and len(acc) == 1 and acc[0][1].op == "mut" \
             and acc[0][1].args[1] == "append"
@@ -610,10 +657,15 @@ def _by_angle(ctx, prog):
             sname = pair.args[0].args[0]
             sv = r.env_all.get(sname)
             if sv is not None and sv.op == "loopout":
-                sc = _ite_chain(sv.args[3])
+                sc = _chain(sv.args[3], loop, lid, acc[0][0])
                 start_ok = tm.is_const(sv.args[2], 0) and len(sc) == 2 and \
                     sc[0][0] is acc[0][0] and sc[0][1] is end and \
                     sc[1][1].op == "loopvar"
+        if not ok:
+            ctx.undecidable("C10.1", f, f"[degrees={deg}] angle/consecutive: "
+                            f"the update of the pair list is not a single "
+                            f"conditional append: {fmt(upd)[:120]}")
+            continue
         ctx.ob("C10.1", f, bool(ok and start_ok),
                f"[degrees={deg}] angle/consecutive: pairs are (start, i+1) "
                f"with start := i+1 on accept, start_0 = 0 (chain)"
@@ -649,7 +701,7 @@ def _by_angle(ctx, prog):
                             f"(accept test not recognised, see C10.3)")
             continue
         if len(accs) == 1:
-            chain = _ite_chain(accs[0].args[3])
+            chain = _chain(accs[0].args[3], loop, lid, acc[0][0])
             rs = [(c, v) for c, v in chain if c is not None]
             ok4 = accs[0].args[2].args[1] == 0 and len(rs) == 1 and \
                 rs[0][0] is acc[0][0] and tm.is_const(rs[0][1]) and \
@@ -1115,8 +1167,9 @@ def _dispatch(ctx, prog):
                             f"search is skipped under "
                             f"{fmt(r.ret.args[0])[:100]}")
             continue
-        ok = bool(empt) and bool(rets) and empt[0].idx < rets[-1].idx and \
-            ret_ok
+        ok = bool(empt) and bool(rets) and ret_ok and (
+            empt[0].idx < rets[-1].idx or
+            all(_unreachable_when_empty(e.live, res) for e in rets))
         ctx.ob("C10.6", f, ok,
                f"delta unit {member}: an empty pair list raises "
                f"FilterException; otherwise the filter's list is returned "
